@@ -244,6 +244,15 @@ class Analyzer:
     def fresh(self, hint: str) -> Lin:
         return Lin.sym(f"{hint}@{next(self._sym)}")
 
+    def _note_summarised(self, sym: dict[str, Lin]) -> None:
+        """Symbols that stand for a loop-carried scalar at a loop head: all
+        that is known about them is the inferred invariant, which may be
+        weaker than what the program guarantees."""
+        if not hasattr(self, "summarised"):
+            self.summarised: set[str] = set()
+        for v in sym.values():
+            self.summarised |= v.syms()
+
     def const(self, node: ast.expr) -> Any:
         return self.repo.const(self.cur.module, node)
 
@@ -529,7 +538,16 @@ class Analyzer:
                        + "facts: " + "; ".join(
                            f"{f} >= 0" for f in st.facts
                            if f.syms() & (idx.syms() | dim.syms()))[:600])
-            if wit is not None:
+            weak = idx.syms() & getattr(self, "summarised", set())
+            if weak:
+                # the index depends on a value carried around a loop: only
+                # the inferred loop invariant is known about it - failing
+                # to prove the bound is then not a refutation
+                detail += ("; the loop invariant inferred for "
+                           + ", ".join(sorted(x.split("@")[0] for x in weak))
+                           + " may be too weak: cannot be normalised into a "
+                           "decidable bound (not recognised)")
+            elif wit is not None:
                 detail += ("; REFUTED by the integer model " + ", ".join(
                     f"{k}={v}" for k, v in sorted(wit.items()))
                     + " (satisfies every fact, index out of range)")
@@ -1175,7 +1193,10 @@ class Analyzer:
                 t = self.assume(st.copy(), s.test, True)
                 f = self.assume(st.copy(), s.test, False)
                 if self.infeasible is not None:
-                    if self.infeasible(self, s, t):
+                    verdict = self.infeasible(self, s, t)
+                    if verdict == "else":
+                        f.dead = True     # the test cannot fail here
+                    elif verdict:
                         t.dead = True
                 for br, body in ((t, s.body), (f, s.orelse)):
                     if br.dead:
@@ -1537,7 +1558,9 @@ class Analyzer:
         written = self._arrays_written(st, body)
         if test is not None:
             written |= self._arrays_written_expr(st, test)
-        return {"sym": {c: self.fresh(c) for c in carried}, "facts": [],
+        hs = {c: self.fresh(c) for c in carried}
+        self._note_summarised(hs)
+        return {"sym": hs, "facts": [],
                 "ranges": {id(a): (None, None, None, None)
                            for a in arrays if a in written}}
 
@@ -1563,6 +1586,7 @@ class Analyzer:
                  arrays: list[Arr], scalars: bool = True) -> dict[str, Any]:
         k = info["k"]
         sym = {c: self.fresh(c) for c in carried}
+        self._note_summarised(sym)
         init = {c: st.vals[c] for c in carried}
         # ---- candidate scalar invariants: list of (Lin over sym/k) >= 0
         cands: list[Lin] = []
